@@ -1,0 +1,5 @@
+//go:build !verif
+
+package dv
+
+func verifGate(*Router, string, any) {}
